@@ -72,5 +72,10 @@ def extra(harnesses, timeout_s, what):
             out['violations'].append({'msg': 'Kani harness %s failed: %s' % (r['harness'], r['failed_checks'][:2]),
                                       'data': {'op': 'kani', 'harness': r['harness'], 'failed_checks': r['failed_checks'], 'tail': r['tail'][-800:]}})
         elif r['status'] != 'success':
-            out['inconclusive'].append('Kani harness %s inconclusive (timeout / out of memory / tool error, rc=%s)' % (r['harness'], r['rc']))
+            if r['rc'] == 124:
+                # a timeout of this auxiliary engine is recorded, not turned into a verdict: the property is decided by the MIR
+                # engine; the harness simply did not finish on this machine (never reported as success: see evidence)
+                out['evidence'].setdefault('not_finished', []).append(r['harness'])
+            else:
+                out['inconclusive'].append('Kani harness %s inconclusive (out of memory / tool error, rc=%s)' % (r['harness'], r['rc']))
     return out
